@@ -286,6 +286,10 @@ def compose(unit, workdir):
         parts.append("\n")
     parts.append("// ---- extracted from /repo (rwsx) ----\n")
     parts.append(items_text)
+    # R-CLONE: derived Clone on non-Copy structs has no Verus specification; it is structural, so an assumed impl says r == *self
+    for mm in re.finditer(r"#\[derive\(([^)]*)\)\]\s*pub struct (\w+)", items_text):
+        if "Clone" in mm.group(1) and "Copy" not in mm.group(1):
+            parts.append("\nimpl RwsClone for %s {\n    #[verifier::external_body]\n    fn rws_clone(&self) -> %s { self.clone() }\n}\n" % (mm.group(2), mm.group(2)))
     parts.append("\n} // verus!\nfn main() {}\n")
     out = os.path.join(workdir, name + ".rs")
     text = "".join(parts)
